@@ -255,6 +255,18 @@ def group_width(cx, iid):
         if w == "sub(32,u32::leading_zeros(arg2.bitfield))":
             ok = True
             inst.site(b, None, "width = 32 - leading_zeros(bitfield)")
+        mm = re.fullmatch(r"Option::map_or\(Rev::find\((var\d+),closure:(\S+?)\{arg2\.bitfield\}\),0,closure:(\S+?)\{\}\)", w)
+        if mm:
+            # (0..32).rev().find(|&i| bitfield & (1 << i) != 0).map_or(0, |i| i + 1)
+            try:
+                src = sorted(show(b.rvalue_expr(node["rv"])) if kind == "assign" else show(b.call_expr(node)) for loc, kind, node in b.defs.get(int(mm.group(1)[3:]), []))
+                c0 = show(R.body(mm.group(2)).local_expr(0))
+                c1 = show(R.body(mm.group(3)).local_expr(0))
+                inst.site(b, None, "width = rev(0..32).find(%s).map_or(0, %s) over %s" % (c0, c1, src))
+                ok = (c0 in ("ne(0,bitand(arg1.0,shl(1,arg2)))", "ne(0,bitand(shl(1,arg2),arg1.0))") and c1 in ("add(1,arg2)", "add(arg2,1)")
+                      and all(re.fullmatch(r"(I::into_iter\()?Iterator::rev\(Range\{0,32\}\)\)?", x) for x in src) and bool(src))
+            except Exception:
+                ok = False
         m = re.fullmatch(r"var(\d+)", w)
         if m:
             n = int(m.group(1))
